@@ -88,6 +88,7 @@ def validate(d):
 
 
 def run(patch, prop, tier="quick"):
+    patch = os.path.abspath(patch)
     rc, o = sh("git -C /repo status --porcelain")
     if o.strip():
         print("refusing: /repo working tree is not clean:\n" + o)
